@@ -29,7 +29,7 @@ from bqskit.runtime.message import RuntimeMessage
 from bqskit.runtime.result import RuntimeResult
 
 PROPERTY = 'C15'
-LEVEL = 'proof'
+LEVEL = 'model_checking'   # Part A alone: integers unbounded, shapes bounded (DESIGN.md calls that level 'proof')
 ENCODED = [
     'bqskit.runtime.base:ServerBase.assign_tasks', 'bqskit.runtime.base:ServerBase.schedule_tasks',
     'bqskit.runtime.base:ServerBase.handle_waiting', 'bqskit.runtime.base:RuntimeEmployee.get_num_of_tasks_sent_since',
